@@ -8,6 +8,7 @@ import sympy as sp
 from ..core import AnalysisError, norm
 from .. import symx, spec, aud
 from ..symx import Tx, E, I, S, is_zero, fmt_cond
+from ..canon import structure_continues
 from ..astutil import walk_local, stores, parent, ancestors
 from ..cfg import paths, whole_collection
 
@@ -42,7 +43,7 @@ def run(chk):
     chk.explain("R1 one record per included session in file order (paths); R2 identifier / tally pool / pooled flag forms; R3 literal "
                 "precedence list filtered by presence; R4 mark filter and smallest-positive-rank update table; R5 both layouts.")
     chk.trust("symx translation and exhaustive tables", "min() of two numbers is commutative and associative")
-    fn = chk.fn(DOM, "Dominion.read_cvrs")
+    fn = chk.fn(DOM, "Dominion.read_cvrs", canonical=True)
     where = f"{DOM}:Dominion.read_cvrs"
     loops = [l for l in walk_local(fn) if isinstance(l, ast.For) and "Sessions" in norm(l.iter)]
     if len(loops) != 1:
@@ -179,47 +180,46 @@ def run(chk):
     chk.ob("C19.R3", where, "precedence-list", ok,
            "the record versions are visited in the literal order Original, Modified (Modified only when current data are requested), "
            "filtered by presence in the session -- not in the session's own key order", node=kloops[0] if kloops else L, **detail)
-    # ---- R4 mark filter and update
+    # ---- R4 mark filter and update: the whole body of the loop over the marks as one term
     mloops = [l for l in walk_local(L) if isinstance(l, ast.For) and "Marks" in norm(l.iter)]
     ok_f = ok_u = False
     detail = {}
     if len(mloops) == 1:
         ml = mloops[0]
         m = norm(ml.target)
-        ifs = [s for s in ml.body if isinstance(s, ast.If)]
-        if len(ml.body) == 1 and len(ifs) == 1 and not ifs[0].orelse:
-            got = Tx().cond(ifs[0].test)
-            want = spec.cond_term(f'{m}["IsVote"] or not enforce_rules')
-            ok_f = aud.cond_equiv(got, want)[0]
-            detail["filter"] = fmt_cond(got)
-            upd = [s for s in ifs[0].body if isinstance(s, ast.If)]
-            if len(upd) == 1 and len(ifs[0].body) == 1:
-                key = f'str({m}["CandidateId"])'
-                old_sym = "contest_votes[str(" + m + "['CandidateId'])]"
-                tx = Tx()
-                tx.post = _strip_int
-                tx.env["@OLD"] = None
-                # translate the update: the stored value as a term; "no store" = old value
-                slot = None
-                for t, v, s in stores(upd[0]):
-                    slot = tx.expr(ast.fix_missing_locations(ast.parse(norm_src(t), mode="eval").body))
-                    break
-                if slot is not None and isinstance(slot, E):
-                    name = "@" + slot.e.name
-                    tx.env[name] = E(slot.e)
-                    tx.block([upd[0]])
+        body = structure_continues(ml.body)
+        sts = [(t, v, s0) for t, v, s0 in stores(ml) if isinstance(t, ast.Subscript)]
+        slots = {norm_src(t) for t, v, s0 in sts}
+        if body is not None and len(slots) == 1 and not [x for x in walk_local(ml) if isinstance(x, (ast.Break, ast.Return))]:
+            tx = Tx()
+            tx.post = _strip_int
+            slot = tx.expr(ast.parse(slots.pop(), mode="eval").body)
+            if isinstance(slot, E) and isinstance(slot.e, sp.Symbol):
+                name = "@" + slot.e.name
+                tx.env[name] = E(slot.e)      # "no store" = the old contents of the slot
+                try:
+                    tx.block(body)
                     got = symx.prune(tx.env[name])
-                    pres = Tx().cond(upd[0].test)
+                except symx.Unsupported as e:
+                    got = None
+                    detail["untranslated"] = str(e)
+                if got is not None:
                     old = slot.e
                     rank = Tx().expr(ast.parse(f'{m}["Rank"]', mode="eval").body).e
-                    wtx = Tx(env={"old": E(old), "rank": E(rank)})
-                    # `present` is the code's own membership test
-                    want_in = spec.spec_term(SPEC_MARK, env={"old": E(old), "rank": E(rank), "present": E(S("PRESENT"))})[0]
-                    want = _subst_atom(want_in, "truthy(PRESENT)", pres)
+                    env = {"old": E(old), "rank": E(rank), "present": E(S("PRESENT")), "counted": E(S("COUNTED"))}
+                    want_in = spec.spec_term(SPEC_MARK, env=env)[0]
+                    pres = spec.cond_term(f'str({m}["CandidateId"]) in {CV}')
+                    cnt = spec.cond_term(f'{m}["IsVote"] or not enforce_rules')
+                    upd = _subst_atom(want_in, "truthy(PRESENT)", pres)
+                    want = I(cnt, upd, E(old))
                     ok_u, n, cex = symx.equivalent(got, symx.prune(want))
                     detail["update_rows"] = n
                     if not ok_u:
                         detail["counterexample"] = cex
+                    # the filter alone: on the rows where the mark is not counted the slot keeps its contents, and the code's
+                    # term depends on the mark at all only when it is counted
+                    ok_f = symx.equivalent(I(cnt, E(old), got), E(old))[0] and not symx.equivalent(got, E(old))[0]
+                    detail["filter"] = "slot unchanged whenever not (IsVote or not enforce_rules)"
                     chk.exhaustive = True
     chk.ob("C19.R4", where, "counted-marks", ok_f, "a mark is counted iff IsVote or rules are not enforced", node=mloops[0] if mloops else L,
            **{k: v for k, v in detail.items() if k == "filter"})
